@@ -18,7 +18,8 @@ let rec ty_ s : M.cty =
 let kind_ s : M.dkind =
   match list s with
   | [Atom "struct"; fs] -> M.DStruct (list_ (fun f -> match list f with
-        | [skip; t] -> { M.f_skip = bool_ skip; f_ty = ty_ t }
+        | [Atom _ as skip; t] -> { M.f_skip = bool_ skip; f_ty = ty_ t }
+        | [List attrs; t] -> { M.f_skip = M.c07_field_skip (List.map str_ attrs); f_ty = ty_ t }   (* serde attribute texts *)
         | _ -> failwith "c07: bad field") fs)
   | [Atom "unit"] -> M.DUnit
   | [Atom "tuple"] -> M.DTuple
